@@ -478,7 +478,16 @@ def run(ctx, only_cases=None):
     gen_changed = vlib.write_if_changed(os.path.join(vlib.COQ, "Gen", "C14.v"), vlib.harness_text(binary, ["gen"]))
     broken = None
     try:
-        pinfo = vlib.coq_properties("C14")
+        try:
+            pinfo = vlib.coq_properties("C14")
+        except vlib.Broken as b0:
+            # coq/.Makefile.d is shared by all properties' builds; a concurrent `make` of another property can leave it half-written
+            # ("missing separator").  That says nothing about this property: retry once after the other build has moved on.
+            if ".Makefile.d" not in (b0.detail or ""):
+                raise
+            import time
+            time.sleep(3)
+            pinfo = vlib.coq_properties("C14")
         vlib.proof_coverage(ctx, pinfo, "make -C coq Properties/C14.vo && coqc Properties/C14.v (Print Assumptions audit)", extra_obligations=8)
     except vlib.Broken as b:
         broken = b
